@@ -194,6 +194,180 @@ sleep_run(Params *p)
 }
 SCENARIO(c02_sleep, "C02", NULL, sleep_run);
 
+// ------------------------------------------------------------------ reuse ---
+// One aio is used for a sequence of operations of different kinds (sleep,
+// receive on an idle socket, receive with data waiting, send); nothing of an
+// earlier operation (deadline, cancel state, result) may leak into a later one.
+static void
+reuse_run(Params *p)
+{
+	(void) p;
+	nng_socket a, b;
+	MUST(nng_pair0_open(&a));
+	MUST(nng_pair0_open(&b));
+	MUST(nng_socket_set_int(a, NNG_OPT_SENDBUF, 8));
+	MUST(nng_socket_set_int(b, NNG_OPT_RECVBUF, 8));
+	std::string url = h_url(TR_INPROC, 21);
+	MUST(nng_listen(b, url.c_str(), NULL, 0));
+	MUST(nng_dial(a, url.c_str(), NULL, 0));
+	sim_quiesce(10000000);
+	UAio *shared = new UAio();
+	int   n      = (int) W(2, 10);
+	int   queued = 0; // messages sent to b and not yet received
+	for (int i = 0; i < n; i++) {
+		Op op;
+		op_init(&op, "reuse", false);
+		delete op.u; // op_init made a fresh one; this scenario reuses
+		op.u = shared;
+		nng_aio_set_timeout(shared->aio, op.timeout);
+		long kind = W(0, 3); // 0 sleep, 1 recv (maybe idle), 2 recv with data waiting, 3 send
+		if (kind == 2 && queued == 0) {
+			nng_msg *m = tag_msg(24, 1, 0, (uint32_t) i);
+			if (nng_sendmsg(a, m, NNG_FLAG_NONBLOCK) != 0)
+				nng_msg_free(m);
+			else
+				queued++;
+			sim_quiesce(2000000);
+		}
+		static const int mss[] = { 0, 1, 5, 20, 50 };
+		int              ms    = mss[W(0, 4)];
+		std::set<int>    nat;
+		long             tmo = op.timeout >= 0 ? op.timeout : -1, min_ok = 0;
+		nng_msg         *sm  = NULL;
+		const char      *what;
+		if (kind == 0) {
+			what = "reuse_sleep";
+		} else if (kind == 3) {
+			what = "reuse_send";
+		} else {
+			what = "reuse_recv";
+			if (queued == 0)
+				op_ensure_finite(&op, 30);
+			tmo = op.timeout >= 0 ? op.timeout : -1;
+		}
+		op.what = what;
+		sim_event("op %d: %s ms=%d aio timeout %d disturb %s queued=%d", i, what, ms, (int) op.timeout,
+		    dname[op.action], queued);
+		int tid = sim_spawn("dist", disturber, &op, 0);
+		if (op.go)
+			sim_yield();
+		shared->arm(what);
+		if (kind == 0) {
+			nng_sleep_aio(ms, shared->aio);
+			min_ok = ms;
+			if (op.timeout >= 0 && op.timeout < ms) {
+				// ETIMEDOUT expected
+			} else {
+				nat.insert(NNG_OK);
+			}
+		} else if (kind == 3) {
+			sm = tag_msg(24, 1, 0, (uint32_t) (1000 + i));
+			nng_aio_set_msg(shared->aio, sm);
+			nng_socket_send(a, shared->aio);
+			nat.insert(NNG_OK);
+		} else {
+			nng_socket_recv(b, shared->aio);
+			if (queued > 0)
+				nat.insert(NNG_OK);
+		}
+		nng_err r = op_finish(&op, tid, nat, tmo, min_ok);
+		if (kind == 3) {
+			if (r == NNG_OK)
+				queued++;
+			else
+				nng_msg_free(sm);
+			nng_aio_set_msg(shared->aio, NULL);
+		} else if (kind != 0 && r == NNG_OK) {
+			nng_msg *m = nng_aio_get_msg(shared->aio);
+			if (m == NULL)
+				sim_violation("C02", "ok_without_msg", "receive completed OK without a message");
+			nng_msg_free(m);
+			nng_aio_set_msg(shared->aio, NULL);
+			queued--;
+		}
+		if (op.did_stop) {
+			// a stopped aio is dead for good; continue with a new one
+			if (op.cbs_at_stop >= 0 && shared->total_cbs != op.cbs_at_stop)
+				sim_violation("C02", "callback_after_stop", "%s: callback ran after nng_aio_stop returned", what);
+			delete shared;
+			shared = new UAio();
+		}
+		sim_stat("nontrivial", 1);
+	}
+	delete shared;
+	MUST(nng_socket_close(a));
+	MUST(nng_socket_close(b));
+}
+SCENARIO(c02_reuse, "C02", NULL, reuse_run);
+
+// ------------------------------------------------------------------- many ---
+// Many operations whose deadlines fall into the same instant: each of them
+// completes exactly once, none early, and none is forgotten (bounded: within
+// one second of virtual time after its deadline, thread stalls excluded).
+static void
+many_run(Params *p)
+{
+	(void) p;
+	nng_socket s;
+	MUST(nng_pull0_open(&s)); // nothing ever arrives
+	static const int counts[] = { 3, 20, 90, 101, 130, 260 };
+	int              n        = counts[W(0, 5)];
+	int              groups   = 1 + (int) W(0, 2);
+	std::vector<UAio *> v;
+	std::vector<long>   dl;
+	uint64_t            st0 = sim_stall_total_ns();
+	for (int i = 0; i < n; i++) {
+		UAio *u  = new UAio();
+		long  ms = 5 + 7 * (long) (i % groups);
+		nng_aio_set_timeout(u->aio, W(0, 3) == 0 ? NNG_DURATION_INFINITE : (nng_duration) ms);
+		bool sleep = W(0, 1) == 0;
+		u->arm(sleep ? "many_sleep" : "many_recv");
+		if (sleep) {
+			nng_aio_set_timeout(u->aio, NNG_DURATION_INFINITE);
+			nng_sleep_aio((nng_duration) ms, u->aio);
+		} else {
+			nng_aio_set_timeout(u->aio, (nng_duration) ms);
+			nng_socket_recv(s, u->aio);
+		}
+		u->user = (void *) (intptr_t) sleep;
+		v.push_back(u);
+		dl.push_back(ms);
+	}
+	sim_event("many: %d operations in %d deadline groups", n, groups);
+	for (int i = 0; i < n; i++) {
+		UAio *u = v[(size_t) i];
+		// generous: deadline + 1 s + stalls
+		uint64_t budget = (uint64_t) dl[(size_t) i] * 1000000ull + 1000000000ull;
+		for (;;) {
+			uint64_t stalled = sim_stall_total_ns() - st0;
+			uint64_t used    = sim_now_ns() - u->t_submit_ns;
+			if (u->poll())
+				break;
+			if (used > budget + stalled)
+				sim_violation("C02", "never_completed",
+				    "operation %d of %d (%s, deadline %ld ms) has not completed %.0f ms after submission "
+				    "(other operations with the same deadline have)",
+				    i, n, u->what, dl[(size_t) i], (double) used / 1e6);
+			u->wait(50000000ull);
+		}
+		bool     sleep   = u->user != NULL;
+		uint64_t elapsed = u->t_done_ns - u->t_submit_ns;
+		if (elapsed + 1000000ull < (uint64_t) dl[(size_t) i] * 1000000ull)
+			sim_violation("C02", "early_timeout_user", "operation %d (%s) completed after %.3f ms, deadline %ld ms", i,
+			    u->what, (double) elapsed / 1e6, dl[(size_t) i]);
+		if (sleep ? u->result != NNG_OK : u->result != NNG_ETIMEDOUT)
+			sim_violation("C02", "unexplained_result", "operation %d (%s) completed with %d", i, u->what, (int) u->result);
+		if (u->cb_count != 1)
+			sim_violation("C02", "user_callback_count", "operation %d (%s) ran its callback %d times", i, u->what,
+			    u->cb_count);
+	}
+	for (auto u : v)
+		delete u;
+	sim_stat("nontrivial", 1);
+	MUST(nng_socket_close(s));
+}
+SCENARIO(c02_many, "C02", NULL, many_run);
+
 // --------------------------------------------------------------- transfer ---
 // PAIR sender/receiver with disturbed aio operations and conservation check.
 struct Xfer {
